@@ -6,7 +6,7 @@ UNITS = ("leader", "volume", "image10s", "image11s")
 
 
 def run(ses):
-    records.check_units(ses, UNITS, ["deps", "blank", "wf"])
+    records.check_units(ses, UNITS, ["deps", "blank", "wf", "table"])  # table: blank => absent / NaN / -1 exactly as specified, nothing derived
     ses.trust(*TRUST)
     ses.assume("spare / blank / reserved areas hold content of their declared character class (ASCII text, numeric text "
                "for numeric spares): decoding them does not raise",
